@@ -49,6 +49,15 @@ def resultScalar (a : DType) (k : Nat) : DType :=
   if k ≤ a.kind then a
   else if k = 1 then f64
   else if a = f32 then c64 else c128
+/-- `np.can_cast(a, b, casting="safe")` -/
+def safeCast (a b : DType) : Bool :=
+  a == b ||
+  match a, b with
+  | i64, f64 | i64, c128 => true
+  | f32, f64 | f32, c64 | f32, c128 => true
+  | f64, c128 => true
+  | c64, c128 => true
+  | _, _ => false
 end DType
 
 /-- what numpy stores when a value is converted to a dtype (`ndarray.astype`, `np.array(.., dtype=..)`):
@@ -278,7 +287,7 @@ inductive Op (K : Type)
   /-- `storage.append(h)`: `np.array(h.data)` is kept (memory.py:207-218); `into` is the dtype of the
   storage: data that cannot be cast to it (`same_kind`) are rejected (storage/base.py:149-155) -/
   | storeFrame (h : Nat) (into : Option DType)
-  /-- `f = template.copy(); f.data = frame`: what `storage[i]` returns -/
+  /-- `f = template.copy(dtype=..); f.data = frame`: what `storage[i]` returns (`loadDType`) -/
   | loadFrame (template : Nat) (frame : Nat)
   /-- `h.apply_operator(name, bc, out=out)` (datafield_base.py:935-963): the boundary condition
   writes virtual points of the operand (`ghosts`: oracle values, `none` = left alone); the result
@@ -637,6 +646,14 @@ def componentAt (s : State K) (o : Obj) (c : Nat) : Except Err (State K) :=
     .ok (s.pushObj (compObj o c))
   else .error .badArg
 
+/-- storage/base.py:286-293 (`_get_field`, since /repo d0418b1): the field returned for a stored frame
+is a copy of the template if the template's dtype can hold the frame (`np.can_cast(.., "safe")`),
+otherwise a copy converted to `np.result_type(frame, template)` - frames are never narrowed -/
+def loadDType (s : State K) (ot fr : Obj) : Option DType :=
+  let dtf := s.store.dtOf fr.view.buf
+  let dtt := s.store.dtOf ot.view.buf
+  if dtf.safeCast dtt then none else some (dtf.result dtt)
+
 /-- storage/base.py:149-155: `not np.can_cast(field.dtype, storage.dtype, casting="same_kind")` -/
 def storeRejected (into : Option DType) (d : DType) : Bool :=
   match into with
@@ -723,7 +740,7 @@ def step (G : List Grid) (s : State K) (op : Op K) : Except Err (State K) :=
     | _, .error e => .error e
     | .ok ot, .ok fr =>
       if fr.cls != .raw then .error .badArg else
-      copyThenWrite G s ot none (fun s1 r p old =>
+      copyThenWrite G s ot (loadDType s ot fr) (fun s1 r p old =>
         match (scatter (selList G r) (s1.store.readView fr.view))[p]? with
         | some (some x) => x
         | _ => old)
